@@ -491,6 +491,13 @@ def make_table(draw, zkey, v0, io, vi, lo, hi, cap=None, min_step=0.05, dims=Non
         # keep the table well-conditioned in the property's sense (every axis step at
         # least 1e-4 of the largest coordinate; 5e-4 here for margin): else fall back to 1-D
         big = max(ios[-1], vis[-1])
+        io_min = min(b - a for a, b in zip(ios, ios[1:]))
+        if io_min < 5.5e-4 * big:
+            # currents are small against the voltages: stretch the io axis (the operating
+            # point then sits in the first io cell) instead of giving up the 2-D table
+            fac = 5.5e-4 * big / io_min
+            ios = [x * fac for x in ios]
+            big = max(ios[-1], vis[-1])
         st_min = min([b - a for a, b in zip(ios, ios[1:])] + [b - a for a, b in zip(vis, vis[1:])])
         if st_min < 5e-4 * big:
             nv = 1
